@@ -172,6 +172,11 @@ def check_binop(ctx, lib, c):
         ctx.event("class/%s/%s" % (fld, k))
     expect(got < p, "%s/noncanonical" % name, lambda: "a=%x b=%x got=%x >= p" % (a, b, got))
     expect(got == exp, "%s/value" % name, lambda: "a=%x b=%x got=%x expected=%x" % (a, b, got, exp))
+    if op in ("add", "sub", "mul"):
+        # the same operation with one object as both operands (r.add(x, x)): a shortcut keyed on pointer identity sees nothing else
+        rv, out = lib.op(name, A, None, alias="b=a")
+        e2 = {"add": 2 * a % p, "sub": 0, "mul": a * a * Rinv % p}[op]
+        expect(conv.ib(out) == e2, "%s/same-object" % name, lambda: "a=%x as both operands: got=%x expected=%x" % (a, conv.ib(out), e2))
 
 
 @st.composite
